@@ -12,7 +12,7 @@ AUDIT_INPUT_FILES = True   # after every case the driver verifies that the synth
 PROPERTY = "C07"
 LEVEL = "exploration"
 CLAIM = {
-    "text": "Exploration by runtime monitoring: invert_freq, apply_channel_mask, extract_samps, extract_chans, extract_bands, downsample, subband and remove_zerodm of the real FilReader are run on synthesised 1/2/4/8/32-bit single and multi-file inputs for seeded random (gulp,start,nsamps) and transform parameters; each output file is parsed by an independent SIGPROC parser (complete header, data bytes == nsamples x nchans x declared nbits, defined sample count) and its data compared with the whole-array definition evaluated in float64 on the selected input: bit-exact for selection/permutation/fill, |out-mean|<1 level for decimation, exact sums for sub-banding, <=1 level for zero-DM. A FileWriter spy counts blocks. Thorough repeats under NUMBA_BOUNDSCHECK=1. Mask values for float data include negative and fractional ones; one case reads more than 64 MiB in a single gulp; input files are re-hashed after every case. Rounds 7-8 added: products whose last third is all zero, 1024 bright channels summed into 1-2 sub-bands at DM 0, sub-byte depths with 2-20 channels, and a float channel with zero mean but non-zero samples in zero-DM removal.",
+    "text": "Exploration by runtime monitoring: invert_freq, apply_channel_mask, extract_samps, extract_chans, extract_bands, downsample, subband and remove_zerodm of the real FilReader are run on synthesised 1/2/4/8/32-bit single and multi-file inputs for seeded random (gulp,start,nsamps) and transform parameters; each output file is parsed by an independent SIGPROC parser (complete header, data bytes == nsamples x nchans x declared nbits, defined sample count) and its data compared with the whole-array definition evaluated in float64 on the selected input: bit-exact for selection/permutation/fill, |out-mean|<1 level for decimation, exact sums for sub-banding, <=1 level for zero-DM. A FileWriter spy counts blocks. Thorough repeats under NUMBA_BOUNDSCHECK=1. Mask values for float data include negative and fractional ones; one case reads more than 64 MiB in a single gulp; input files are re-hashed after every case. Rounds 7-8 added: products whose last third is all zero, 1024 bright channels summed into 1-2 sub-bands at DM 0, sub-byte depths with 2-20 channels, and a float channel with zero mean but non-zero samples in zero-DM removal. Round 10 added: frequency factors 3/5/6 and constructed decimation groups whose mean is an exact integer although no row mean is.",
     "design_ref": "DESIGN.md section 3 (C07)",
     "note": "Trusted: vlib/sigfile.py parser/packer, numpy float64. Delays come from the library's own get_dmdelays (all >= 0 in the domain). Cases outside the stated preconditions (ffactor or nsub not dividing nchans, output sample not a whole number of bytes, zero-DM results outside the representable range) are only counted.",
     "technique": "runtime monitoring: differential oracle on re-parsed output files + well-formedness audit with an independent parser + write-call spy",
